@@ -46,8 +46,10 @@ func (s *gRPCServer) Shutdown(ctx context.Context) error {
 	select {
 	case <-done:
 	case <-ctx.Done():
-		s.server.Stop()
-		<-done
+		// Stop also waits for connections which have not completed the
+		// HTTP/2 handshake yet, i.e. up to the connection timeout of 120s
+		// for a client which connected and sends nothing. Do not wait for it.
+		go s.server.Stop()
 	}
 	return nil
 }
